@@ -28,14 +28,14 @@ ANCHORS = ["AND._evaluate__", "Union._evaluate__", "ElseIf._evaluate__", "Not._e
            "QueryObjectDescriptor.evaluate_selected_variables", "QueryObjectDescriptor.get_constrained_values"]
 
 FAMILIES = [("core", 30), ("rich", 25), ("flat", 8), ("sub", 6), ("E1", 6), ("E2", 5), ("forall", 6),
-            ("forall0", 3), ("msb", 6), ("msu", 2), ("core_ne", 5), ("fnfalsy", 1), ("forallz", 1), ("E2z", 1), ("porder", 4), ("scalar", 2), ("scalar0", 3)]
+            ("forall0", 3), ("msb", 6), ("msu", 2), ("core_ne", 5), ("fnfalsy", 1), ("forallz", 1), ("E2z", 1), ("porder", 4), ("scalar", 2), ("scalar0", 3), ("subscalar", 3)]
 
 
 def plan(tier):
     return {"cases": 24000 if tier == "quick" else 400000, "shards": 16, "case_timeout": 20,
             "shard_timeout": 3000, "min_nontrivial": 300 if tier == "quick" else 2000,
             "min_counters": {"rows_compared": 5000, "family:core": 100, "family:rich": 100, "family:flat": 50,
-                             "family:forall": 50, "family:E2": 30, "family:sub": 30}}
+                             "family:forall": 50, "family:E2": 30, "family:sub": 30, "family:subscalar": 30}}
 
 
 def setup(ctx):
@@ -71,6 +71,8 @@ def gen_family(rng, fam):
         return GEN.gen_scalar_vars(rng, falsy=False)
     if fam == "scalar0":
         return GEN.gen_scalar_vars(rng, falsy=True)
+    if fam == "subscalar":
+        return GEN.gen_scalar_subquery(rng)
     if fam == "fnfalsy":
         return GEN.gen_fnfalsy(rng)
     if fam == "forallz":
@@ -264,8 +266,6 @@ def classify(spec, m, objs, got, exp, err):
         return None
     sg, se = set(got), set(exp)
     extra, missing = bool(sg - se), bool(se - sg)
-    if spec.get("cond") and _pred_same_var_twice(spec["cond"]):
-        return "predicate-same-var-twice"
     if extra and not missing:
         try:
             kle = set(G.oracle(spec, m, objs, mode="kleene"))
@@ -362,7 +362,7 @@ def witnesses():
                            [["var", "y"]], [X, Y]),
         "forall-empty-range": _w(["forall", "y", ["cmp", "!=", ["attr", ["var", "x"], "a"], ["attr", ["var", "y"], "a"]]],
                                  [["var", "x"]], [X, Y0]),
-        "predicate-same-var-twice": _w(["cmp", ">", ["fn", "sum_ab", {"x": ["var", "x"], "y": ["var", "x"]}], ["lit", 1]],
+        "predicate-same-var-twice": _w(["cmp", ">", ["fn", "sum_ab", {"x": ["var", "x"], "y": ["var", "x"]}], ["lit", 2]],
                                        [["var", "x"]], [dict(X, dom=[0, 1, 2])]),
         "falsy-operand-dropped": _w(
             ["forall", "y", ["and", ["cmp", ">=", ["attr", ["var", "y"], "b"], ["attr", ["var", "x"], "a"]],
